@@ -27,10 +27,12 @@ Assignment table (WIDE scan: every .py below openpectus/engine and openpectus/la
 * `valueAssigns` every assignment (plain, annotated, augmented, tuple target) to an attribute named `value`,
                  `simulated_value` or `simulated` on ANY receiver, and every `setattr(obj, "<that name>", …)`:
                    init        `self.<f>` in `__init__` of a Tag subclass
-                   primitive   `self.<f>` inside Tag.set_value / simulate_value(_and_unit) / stop_simulation
+                   notifying   `self.<f>` in a method of Tag itself that afterwards calls self.notify_listeners(…)
+                               (a primitive or a private helper of one; no method names are pinned)
                    silent      `self.<f>` anywhere else in a Tag subclass
                    otherClass  `self.<f>` inside a class that is not a Tag subclass (TagValue, StackItem …)
-                   foreign     receiver is not `self` (e.g. `tag.value = …` in engine code, `item.value += …`)
+                   foreignNonTag  the loop variable of `for x in self.<attr>` whose annotation names non-tag classes only
+                   foreign     any other receiver (e.g. `tag.value = …` in engine code)
 * `dynamicSetattrs` every `setattr` whose attribute name is not a string literal.
 
 The files are located through the imported `openpectus` package, so the scan follows PYTHONPATH.
@@ -118,6 +120,15 @@ def arg_expr(e: ast.expr | None, fn, cls_name: str | None, depth: int = 0) -> st
     return "other"
 
 
+def _notifies_after(fn: ast.AST, line: int) -> bool:
+    """the function calls `self.notify_listeners(…)` at or after the given line"""
+    for n in ast.walk(fn):
+        if isinstance(n, ast.Call) and isinstance(n.func, ast.Attribute) and n.func.attr == "notify_listeners" \
+                and isinstance(n.func.value, ast.Name) and n.func.value.id == "self" and n.lineno >= line:
+            return True
+    return False
+
+
 def dotted(n: ast.AST) -> str:
     if isinstance(n, ast.Attribute):
         return dotted(n.value) + "." + n.attr
@@ -131,7 +142,11 @@ def dotted(n: ast.AST) -> str:
 
 
 class Scan(ast.NodeVisitor):
-    def __init__(self, rel: str, tag_classes: set[str], sites: bool, tt_funcs: dict[str, int]):
+    def __init__(self, rel: str, tag_classes: set[str], sites: bool, tt_funcs: dict[str, int],
+                 classes_with_field: set[str] = frozenset(), all_classes: set[str] = frozenset()):
+        self.classes_with_field = classes_with_field
+        self.all_classes = all_classes
+        self.class_nodes: list[ast.ClassDef] = []
         self.rel = rel
         self.tag_classes = tag_classes
         self.sites = sites                  # FILES: call-site tables too; otherwise assignments only
@@ -156,10 +171,12 @@ class Scan(ast.NodeVisitor):
 
     def visit_ClassDef(self, node: ast.ClassDef):
         self.cls.append(node.name)
+        self.class_nodes.append(node)
         saved, self.fn = self.fn, []
         self.generic_visit(node)
         self.fn = saved
         self.cls.pop()
+        self.class_nodes.pop()
 
     def visit_FunctionDef(self, node):
         self.fn.append(node)
@@ -190,9 +207,17 @@ class Scan(ast.NodeVisitor):
                 ex, src = "forward", "*args"
             else:
                 ex, src = "other", "<missing>"
+            fn = self.cur_fn()
+            params = [a.arg for a in fn.args.posonlyargs + fn.args.args + fn.args.kwonlyargs] if fn else []
+            is_super = isinstance(f.value, ast.Call) and isinstance(f.value.func, ast.Name) and f.value.func.id == "super"
             self.set_sites.append({"file": self.rel, "line": node.lineno, "end": node.end_lineno or node.lineno,
                                    "func": self.qual(), "method": f.attr, "cls": EXPR_TO_CLASS[ex], "expr": ex,
-                                   "arg": src})
+                                   "arg": src,
+                                   # is a tick time at hand where the site stands?  (a `tick_time` parameter, or the
+                                   # enclosing class reads some `…._tick_time` field)
+                                   "time_at_hand": "tick_time" in params or (self.cur_cls() or "") in self.classes_with_field,
+                                   # an overriding wrapper: `super().<same method>(…)` inside a method of that name
+                                   "wrapper": bool(fn is not None and is_super and fn.name == f.attr)})
         elif name in self.tt_funcs and name not in SET_METHODS:
             arg, starred = self._time_arg(node, self.tt_funcs[name])
             if arg is not None:
@@ -210,8 +235,12 @@ class Scan(ast.NodeVisitor):
                                          "func": self.qual(), "field": a.value, "kind": "foreign",
                                          "target": "setattr(" + ast.unparse(node.args[0]) + ")"})
             else:
+                recv = node.args[0]
+                on_self_non_tag = isinstance(recv, ast.Name) and recv.id == "self" and bool(self.cls) and \
+                    self.cls[-1] not in self.tag_classes
                 self.dyn_setattrs.append({"file": self.rel, "line": node.lineno, "func": self.qual(),
-                                          "src": ast.unparse(node)})
+                                          "src": ast.unparse(node),
+                                          "kind": "otherClass" if on_self_non_tag else "unknown"})
         self.generic_visit(node)
 
     def _target(self, t: ast.expr, value: ast.expr | None, line: int):
@@ -228,10 +257,14 @@ class Scan(ast.NodeVisitor):
         in_tag = bool(self.cls) and self.cls[-1] in self.tag_classes
         if t.attr in VALUE_FIELDS:
             if is_self and in_tag:
+                # a method of Tag itself that assigns a field and afterwards calls self.notify_listeners(…) is a
+                # notifying primitive (public or a private helper of one): no method names are pinned
                 kind = "init" if fname == "__init__" else \
-                    "primitive" if self.cls[-1] == "Tag" and fname in PRIMITIVES else "silent"
+                    "notifying" if self.cls[-1] == "Tag" and fn is not None and _notifies_after(fn, line) else "silent"
             elif is_self and self.cls:
                 kind = "otherClass"
+            elif self._non_tag_receiver(t.value):
+                kind = "foreignNonTag"
             else:
                 kind = "foreign"
             self.assigns.append({"file": self.rel, "line": line, "cls": self.cur_cls() or "", "func": self.qual(),
@@ -247,6 +280,24 @@ class Scan(ast.NodeVisitor):
             self.field_writes.append({"file": self.rel, "line": line, "func": self.qual(), "cls": EXPR_TO_CLASS[ex],
                                       "expr": ex, "init": fname == "__init__",
                                       "rhs": ast.unparse(value) if value is not None else ""})
+
+    def _non_tag_receiver(self, recv: ast.expr) -> bool:
+        """`x.value = …` where x is the variable of an enclosing `for x in self.<attr>` and the class annotates
+        `self.<attr>` with element classes none of which is a Tag subclass (e.g. `list[BlockTimeTag.StackItem]`)."""
+        if not isinstance(recv, ast.Name) or not self.fn or not self.class_nodes:
+            return False
+        for n in ast.walk(self.fn[-1]):
+            if isinstance(n, ast.For) and isinstance(n.target, ast.Name) and n.target.id == recv.id and \
+                    isinstance(n.iter, ast.Attribute) and isinstance(n.iter.value, ast.Name) and n.iter.value.id == "self":
+                for a in ast.walk(self.class_nodes[-1]):
+                    if isinstance(a, ast.AnnAssign) and isinstance(a.target, ast.Attribute) and \
+                            a.target.attr == n.iter.attr and isinstance(a.target.value, ast.Name) and a.target.value.id == "self":
+                        names = {x.attr if isinstance(x, ast.Attribute) else x.id for x in ast.walk(a.annotation)
+                                 if isinstance(x, (ast.Name, ast.Attribute))}
+                        elems = names - {"list", "List", "dict", "Dict", "set", "Set", "tuple", "Tuple", "str", "int", "float"}
+                        elems -= {c for c in self.cls}       # qualifying outer class names
+                        return bool(elems) and not (elems & self.tag_classes) and elems <= self.all_classes
+        return False
 
     def visit_Assign(self, node: ast.Assign):
         for t in node.targets:
@@ -307,7 +358,71 @@ def tick_time_functions(trees: dict[str, ast.Module]) -> dict[str, int]:
     return out
 
 
-def stmt_list(fn: ast.FunctionDef, cls_name: str) -> list[dict]:
+CONTAINER_METHODS = {"values", "keys", "items", "append"}
+
+
+class Resolver:
+    """Decides, without pinning names, whether a call in a tick function can reach a tag and whether it hands the
+    tick time down."""
+    def __init__(self, trees: dict[str, ast.Module], tree: ast.Module, cls_name: str, tt_funcs: dict[str, int]):
+        self.tt_funcs = tt_funcs
+        self.loggers = {t.id for n in tree.body if isinstance(n, ast.Assign) and isinstance(n.value, ast.Call)
+                        and dotted(n.value.func).endswith("getLogger") for t in n.targets if isinstance(t, ast.Name)}
+        self.classes: dict[str, list[ast.ClassDef]] = {}
+        for tr in trees.values():
+            for n in ast.walk(tr):
+                if isinstance(n, ast.ClassDef):
+                    self.classes.setdefault(n.name, []).append(n)
+        # attribute of self -> annotated class (from `self.x: T = …` in the class)
+        self.attr_type: dict[str, str] = {}
+        for c in self.classes.get(cls_name, []):
+            for n in ast.walk(c):
+                if isinstance(n, ast.AnnAssign) and isinstance(n.target, ast.Attribute) and \
+                        isinstance(n.target.value, ast.Name) and n.target.value.id == "self" and \
+                        isinstance(n.annotation, ast.Name):
+                    self.attr_type[n.target.attr] = n.annotation.id
+
+    def family(self, name: str) -> list[ast.ClassDef]:
+        fam, names, changed = list(self.classes.get(name, [])), {name}, True
+        while changed:
+            changed = False
+            for cname, defs in self.classes.items():
+                if cname in names:
+                    continue
+                for d in defs:
+                    if {b.id if isinstance(b, ast.Name) else getattr(b, "attr", "") for b in d.bases} & names:
+                        names.add(cname)
+                        fam += defs
+                        changed = True
+                        break
+        return fam
+
+    def reaches(self, call: ast.Call) -> bool:
+        """False only when the call provably cannot reach a tag: logging, container access, or a method of an
+        annotated attribute's class whose implementations (incl. subclasses) make no calls at all."""
+        name = dotted(call.func)
+        if name.split(".")[0] in self.loggers:
+            return False
+        f = call.func
+        if isinstance(f, ast.Attribute) and f.attr in CONTAINER_METHODS and not \
+                (isinstance(f.value, ast.Name) and f.value.id == "self"):
+            return False
+        if isinstance(f, ast.Attribute) and isinstance(f.value, ast.Attribute) and \
+                isinstance(f.value.value, ast.Name) and f.value.value.id == "self" and f.value.attr in self.attr_type:
+            impls = [m for c in self.family(self.attr_type[f.value.attr]) for m in c.body
+                     if isinstance(m, (ast.FunctionDef, ast.AsyncFunctionDef)) and m.name == f.attr]
+            if impls and not any(isinstance(n, ast.Call) for m in impls for n in ast.walk(m)):
+                return False
+        return True
+
+    def passes_time(self, call: ast.Call) -> bool:
+        f = call.func
+        name = f.attr if isinstance(f, ast.Attribute) else f.id if isinstance(f, ast.Name) else None
+        return name in self.tt_funcs and name not in SET_METHODS and self.tt_funcs[name] == 0 and \
+            bool(call.args) and not isinstance(call.args[0], ast.Starred)
+
+
+def stmt_list(fn: ast.FunctionDef, cls_name: str, res: Resolver) -> list[dict]:
     """Statements of a tick function in evaluation order: `_tick_time` assignments, bulk stamps, calls."""
     out: list[dict] = []
 
@@ -318,7 +433,8 @@ def stmt_list(fn: ast.FunctionDef, cls_name: str) -> list[dict]:
         if isinstance(e, ast.Call):
             a0 = e.args[0] if e.args and not isinstance(e.args[0], ast.Starred) else None
             out.append({"kind": "call", "name": dotted(e.func),
-                        "expr": arg_expr(a0, fn, cls_name) if a0 is not None else "none"})
+                        "expr": arg_expr(a0, fn, cls_name) if a0 is not None else "none",
+                        "reach": res.reaches(e), "passes": res.passes_time(e)})
 
     def walk(stmts):
         for s in stmts:
@@ -376,8 +492,11 @@ def scan() -> dict:
     tt_funcs = tick_time_functions(trees)
     out: dict = {"set_sites": [], "assigns": [], "stamps": [], "field_writes": [], "dyn_setattrs": [],
                  "time_calls": []}
+    classes_with_field = {c.name for tr in trees.values() for c in ast.walk(tr) if isinstance(c, ast.ClassDef)
+                          and any(isinstance(n, ast.Attribute) and n.attr == "_tick_time" for n in ast.walk(c))}
+    all_classes = {c.name for tr in trees.values() for c in ast.walk(tr) if isinstance(c, ast.ClassDef)}
     for rel in FILES + [r for r in trees if r not in FILES]:
-        s = Scan(rel, tag_classes, rel in FILES, tt_funcs)
+        s = Scan(rel, tag_classes, rel in FILES, tt_funcs, classes_with_field, all_classes)
         s.visit(trees[rel])
         out["set_sites"] += s.set_sites
         out["assigns"] += s.assigns
@@ -387,8 +506,10 @@ def scan() -> dict:
         out["time_calls"] += s.time_calls
     et = find_method(trees["engine/engine.py"], "Engine", "tick")
     it = find_method(trees["lang/exec/pinterpreter.py"], "PInterpreter", "tick_iterate_subticks")
-    out["engine_tick"] = stmt_list(et, "Engine") if et is not None else []
-    out["interp_tick"] = stmt_list(it, "PInterpreter") if it is not None else []
+    out["engine_tick"] = stmt_list(et, "Engine", Resolver(trees, trees["engine/engine.py"], "Engine", tt_funcs)) \
+        if et is not None else []
+    out["interp_tick"] = stmt_list(it, "PInterpreter", Resolver(trees, trees["lang/exec/pinterpreter.py"],
+                                                               "PInterpreter", tt_funcs)) if it is not None else []
     out["tag_classes"] = sorted(tag_classes)
     out["tt_funcs"] = tt_funcs
     out["wide_files"] = len(trees)
@@ -414,7 +535,8 @@ def render(t: dict) -> str:
          " -- do not edit. -/",
          "import OPM.Model.Tags", "namespace OPM.Gen.TagSites", "open OPM.Tags", "",
          "structure SetSite where", "  file : String", "  line : Nat", "  endLine : Nat", "  func : String",
-         "  method : String", "  cls : TimeClass", "  expr : ArgExpr", "  arg : String", "deriving Repr, DecidableEq", "",
+         "  method : String", "  cls : TimeClass", "  expr : ArgExpr", "  arg : String", "  timeAtHand : Bool",
+         "  wrapper : Bool", "deriving Repr, DecidableEq", "",
          "structure AssignSite where", "  file : String", "  line : Nat", "  cls : String", "  func : String",
          "  field : String", "  kind : String", "  target : String", "deriving Repr, DecidableEq", "",
          "structure StampSite where", "  file : String", "  line : Nat", "  func : String", "  cls : TimeClass",
@@ -425,15 +547,17 @@ def render(t: dict) -> str:
          "def setSites : List SetSite := ["]
     L.append(",\n".join(
         f"  ⟨{lean_str(s['file'])}, {s['line']}, {s['end']}, {lean_str(s['func'])}, {lean_str(s['method'])}, "
-        f".{s['cls']}, .{s['expr']}, {lean_str(s['arg'])}⟩" for s in t["set_sites"]))
+        f".{s['cls']}, .{s['expr']}, {lean_str(s['arg'])}, {b(s['time_at_hand'])}, {b(s['wrapper'])}⟩"
+        for s in t["set_sites"]))
     L += ["]", "", "/-- every assignment to an attribute value / simulated_value / simulated, on any receiver -/",
           "def valueAssigns : List AssignSite := ["]
     L.append(",\n".join(
         f"  ⟨{lean_str(s['file'])}, {s['line']}, {lean_str(s['cls'])}, {lean_str(s['func'])}, "
         f"{lean_str(s['field'])}, {lean_str(s['kind'])}, {lean_str(s['target'])}⟩" for s in t["assigns"]))
-    L += ["]", "", "/-- every setattr whose attribute name is not a literal: (file, function, source) -/",
-          "def dynamicSetattrs : List (String × String × String) := ["]
-    L.append(",\n".join(f"  ({lean_str(s['file'])}, {lean_str(s['func'])}, {lean_str(s['src'])})"
+    L += ["]", "", "/-- every setattr whose attribute name is not a literal: (file, function, source, kind); kind",
+          "    otherClass = on `self` inside a class that is not a Tag subclass -/",
+          "def dynamicSetattrs : List (String × String × String × String) := ["]
+    L.append(",\n".join(f"  ({lean_str(s['file'])}, {lean_str(s['func'])}, {lean_str(s['src'])}, {lean_str(s['kind'])})"
                         for s in t["dyn_setattrs"]))
     L += ["]", "", "/-- every assignment to a tag's tick_time field -/", "def stampSites : List StampSite := ["]
     L.append(",\n".join(
@@ -460,7 +584,7 @@ def render(t: dict) -> str:
                 rows.append(f"  .stamp .{s['expr']}")
             else:
                 a = "none" if s["expr"] == "none" else f"(some .{s['expr']})"
-                rows.append(f"  .call {lean_str(s['name'])} {a}")
+                rows.append(f"  .call {lean_str(s['name'])} {a} {b(s['reach'])} {b(s['passes'])}")
         L.append(",\n".join(rows))
     stmts("engineTickStmts", "Engine.tick in evaluation order", t["engine_tick"])
     stmts("interpTickStmts", "PInterpreter.tick_iterate_subticks in evaluation order", t["interp_tick"])
